@@ -527,6 +527,60 @@ def cand_edited(case):
 
 
 @st.composite
+def reparse_live_cases(draw, tier):
+    """An online monitor that has already been updated gets another text (spec.spec = ...; parse(); pastify() if the new text
+    needs it) and is updated further: it behaves like a fresh monitor of the new text."""
+    dense = draw(st.booleans())
+    base = DENSE_PAST if dense else draw(st.sampled_from([DT_PAST, DT_BFUT]))
+    f1, vs = draw(F.formulas(base))
+    f2, _ = draw(F.formulas(base, variables=vs))
+    c = {'kind': 'ct_on' if dense else 'dt_on', 'formula': f2, 'first': f1, 'vars': vs}
+    if dense:
+        c['signals'] = {v: draw(grid_signal(0, max_samples=4)) for v in vs}
+    else:
+        c['trace'] = draw(F.traces(vs, n=(F.horizon(f2) or 0) + draw(st.integers(1, 5))))
+    return c
+
+
+def check_reparse_live(case):
+    f1, f2 = from_json(case['first']), from_json(case['formula'])
+    vs = list(case['vars'])
+    dense = case['kind'] == 'ct_on'
+    labels = ['kind:' + case['kind'] + ':reparse-live'] + feature_labels(f2)
+    if not F.fvars(f1) or not F.fvars(f2) or F.horizon(f1) is None or F.horizon(f2) is None:
+        return DISCARD('no-variable-or-unbounded', labels)
+    data = data_of(case)
+    pr = (lambda g: dense_text(g, Q)) if dense else (lambda g: 'out = ' + show(g))
+
+    def feed(spec):
+        if dense:
+            sig = to_time({v: data[v] for v in vs}, Q)
+            return [spec.update(*[[v, sig[v]] for v in vs])]
+        return [spec.update(i, [(v, data[v][i]) for v in vs]) for i in range(len(data[vs[0]]))]
+    try:
+        fresh = build(case['kind'], pr(f2), vs, pastify=F.has_future(f2))
+        want = feed(fresh)
+        spec = build(case['kind'], pr(f1), vs, pastify=F.has_future(f1))
+        feed(spec)
+    except Exception as e:  # noqa
+        return DISCARD('single-text-raises(other lanes):' + type(e).__name__, labels)
+    desc = 'first text: %s\nsecond text: %s\ndata: %s' % (pr(f1), pr(f2), {v: data[v] for v in vs})
+    try:
+        spec.spec = pr(f2)
+        spec.parse()
+        if F.has_future(f2):
+            spec.pastify()
+        spec.reset() if case.get('reset_after_parse') else None
+        got = feed(spec)
+    except Exception as e:  # noqa
+        o = exc_outcome(e)
+        return FAIL('crash:reparse-live:%s:%s' % (case['kind'], o[1]), desc + '\nafter the text was replaced and parsed again: raised %s: %s at %s' % (o[1], o[3], o[4]), labels)
+    if not dense and got != want:
+        return FAIL('reparse-live-differs:' + case['kind'], desc + '\nre-parsed live monitor: %r\nfresh monitor:          %r' % (got, want), labels)
+    return PASS(F.n_temporal(f2) >= 1, labels)
+
+
+@st.composite
 def mixed_use_cases(draw, tier):
     """The combined classes of the README (offline and online monitor in one object) used both ways on one object:
     evaluate() then update()s, or update()s then evaluate()."""
@@ -597,7 +651,7 @@ def giant_supported_cases(draw, tier):
     return c
 
 
-LANES = [Lane('mixed_use', mixed_use_cases, check_mixed_use, 1000, 10000, None), Lane('sup_giant', giant_supported_cases, check_supported, 80, 800, None), Lane('struct', struct_cases, check_struct, 1200, 15000, cand_struct), Lane('edited', edited_cases, check_edited, 1200, 15000, cand_edited), Lane('recover', lambda tier: recover_cases(tier), check_recover, 800, 8000, cand_supported)]
+LANES = [Lane('reparse_live', reparse_live_cases, check_reparse_live, 1000, 10000, None), Lane('mixed_use', mixed_use_cases, check_mixed_use, 1000, 10000, None), Lane('sup_giant', giant_supported_cases, check_supported, 80, 800, None), Lane('struct', struct_cases, check_struct, 1200, 15000, cand_struct), Lane('edited', edited_cases, check_edited, 1200, 15000, cand_edited), Lane('recover', lambda tier: recover_cases(tier), check_recover, 800, 8000, cand_supported)]
 for _k in KINDS:
     LANES.append(Lane('sup_' + _k, (lambda k: lambda tier: supported_cases(tier, k))(_k), check_supported, 1500, 20000, cand_supported))
 for _k in UKINDS:
